@@ -109,7 +109,7 @@ static void plane_case(const vf::Args& a, uint64_t idx) {
   // convention of the 2D objects is not documented
   auto inplane = [](const T4& t) { T4 r = t4zero(); for (int i = 0; i < 2; ++i) for (int j = 0; j < 2; ++j) for (int k = 0; k < 2; ++k) for (int l = 0; l < 2; ++l) r.v[i][j][k][l] = t.v[i][j][k][l]; return r; };
   const L de = std::fabs(L(aa) / bb - 1);
-  const L tol = st == 2 ? (16 * de + 1e-9L) : KF * EPS * (1 + (st == 1 ? 1 / (de * de) : 0)) + 1e-12L;
+  const L tol = st == 2 ? (32 * de + 1e-9L) : KF * EPS * (1 + (st == 1 ? 1 / (de * de) : 0)) + 1e-12L;
   const auto Pl = hom::computePlaneStrainHillTensor<double>(IM0, na, aa, bb);
   R.check(nm("PlaneStrainHillTensor=integral-definition"), S, idx, h, t4dist(inplane(from_st2tost2(Pl, 2)), inplane(Pref)), tol * nP, dump);
   if (st == 0) {
